@@ -1,8 +1,9 @@
 \* C11 design model, exhaustive: actor connection through every handshake state,
 \* then up to MaxCmds commands of every row of the policy table x packet type x claimed fields x object.
-\* Substituted by the driver: SETS (row sets), FIXES (patches the modelled tree has), CMDS, RESP, EMIT.
+\* Substituted by the driver: SETS (row sets), FIXES (patches the modelled tree has), WVS (world variants), CMDS, RESP, EMIT.
 CONSTANTS
   Sets = @@SETS@@
+  WVs = @@WVS@@
   Fixes = @@FIXES@@
   MaxCmds = @@CMDS@@
   RespToo = @@RESP@@
